@@ -17,6 +17,10 @@
 //	          wide-input circuits whose inputs are IOArg.Parse texts / direct
 //	          *big.Int values of any sign and magnitude; `runi` / `histi` /
 //	          `lvli` op lines carry the signed decimals
+//	c10 degen degenerate session shapes (degen.go): parties with 0 / 1 input
+//	          bits, circuits with 0 AND gates / 0 gates / 1 gate / 0 outputs,
+//	          a party no gate reads; `run` ops + `msgs` ops (bytes every party
+//	          sent during Run = the model's message transcript)
 //	c10 pool  Triples.Append / TriplePool.Get op sequences (with arrivals
 //	          racing a blocked Get) and the bit-vector leaf functions
 //	c10 tb    tripleBatch at n parties over in-memory connections with
@@ -42,7 +46,7 @@ import (
 
 func main() {
 	if len(os.Args) < 2 {
-		fmt.Fprintln(os.Stderr, "usage: c10 sess|hist|ext|repr|pool|tb ...")
+		fmt.Fprintln(os.Stderr, "usage: c10 sess|hist|ext|repr|degen|pool|tb ...")
 		os.Exit(2)
 	}
 	// the gmw package prints progress lines on stdout
@@ -62,6 +66,8 @@ func main() {
 		tbMode(os.Args[2:])
 	case "repr":
 		reprMode(os.Args[2:])
+	case "degen":
+		degenMode(os.Args[2:])
 	default:
 		fmt.Fprintln(os.Stderr, "unknown mode")
 		os.Exit(2)
